@@ -40,6 +40,8 @@ pub struct Stats {
     /// when false nothing is recorded (used while proptest shrinks)
     pub frozen: bool,
     pub nt_flag: bool,
+    /// largest value seen per key (deviation magnitudes etc.)
+    pub maxima: BTreeMap<String, u128>,
 }
 
 pub const SAMPLES_PER_CLASS: usize = 2;
@@ -53,6 +55,15 @@ impl Stats {
             return;
         }
         *self.counters.entry(k.to_string()).or_insert(0) += n;
+    }
+    pub fn max(&mut self, k: &str, v: u128) {
+        if self.frozen {
+            return;
+        }
+        let e = self.maxima.entry(k.to_string()).or_insert(0);
+        if v > *e {
+            *e = v;
+        }
     }
     pub fn get(&self, k: &str) -> u64 {
         self.counters.get(k).copied().unwrap_or(0)
@@ -106,6 +117,12 @@ impl Stats {
             *self.counters.entry(k).or_insert(0) += v;
         }
         self.nontrivial.extend(o.nontrivial);
+        for (k, v) in o.maxima {
+            let e = self.maxima.entry(k).or_insert(0);
+            if v > *e {
+                *e = v;
+            }
+        }
         for (k, v) in o.samples {
             let e = self.samples.entry(k).or_default();
             for s in v {
@@ -399,6 +416,13 @@ impl PropReport {
             let mut m = serde_json::Map::new();
             for (k, v) in &o.stats.counters {
                 m.insert(k.clone(), json!(v));
+            }
+            if !o.stats.maxima.is_empty() {
+                let mut mm = serde_json::Map::new();
+                for (k, v) in &o.stats.maxima {
+                    mm.insert(k.clone(), json!(v.to_string()));
+                }
+                m.insert("maxima".into(), Value::Object(mm));
             }
             classes.insert(name.clone(), Value::Object(m));
             per_engine.insert(
